@@ -184,7 +184,8 @@ def crash_oracle(case, obs):
                     sside = [p for p in before["hosts"][0]["streams"] if p[0] == port]
                     if est and sside:
                         e = FC.peer_end(obs, task, before["hosts"][1]["starts"] - 1)
-                        if e is None and task == "C" and case["cfg"].get("tcp_capacity", 64) < 3:
+                        in_flight = FC.c_data_in_flight(case, obs, before["hosts"][1]["starts"] - 1, crash_time)
+                        if e is None and task == "C" and case["cfg"].get("tcp_capacity", 64) < 3 and in_flight:
                             # C writes 3 records to a peer that never reads: with a window of 1 or 2 segments
                             # it is blocked in write_all on flow-control credits when the server dies.
                             # Fix df5434b repaired the case in which the server holds the data unread when it dies (its
@@ -198,7 +199,7 @@ def crash_oracle(case, obs):
                         elif e[2] > k and steps_between(evs, k, e[2]) > slack:
                             # task C with a full window and its data in flight at the crash is only answered (RST) once
                             # the host is bounced and processes the segment: same residual known finding as above
-                            late_c = task == "C" and case["cfg"].get("tcp_capacity", 64) < 3
+                            late_c = task == "C" and case["cfg"].get("tcp_capacity", 64) < 3 and in_flight
                             out.append(("event %d (%s n0): client task %s was unblocked only %d steps later" % (k, name, task, steps_between(evs, k, e[2])),
                                         K_WRITER if late_c else None))
                         elif e[2] > k and e[0] not in ("eof", "UnexpectedEof", "ConnectionReset", "BrokenPipe"):
